@@ -13,7 +13,7 @@ THEOREMS = [(M, "NQ.C08." + n) for n in [
     "transpile_simulates_final_partial", "pad_is_set", "set_writes_gen",
     "templates_eq_nvdecomp", "expandSound_of_C07", "transpile_simulates_C07_partial",
     "mov_unknown_emits_ec", "mov_sdk_shape_in_qstatic", "f10_nonQ_register_asserts", "sets_only_scratch_gen", "seeded_scratch_registers",
-    "seeded_cache_violates_scratch_ok", "seeded_qfree_register_live", "seeded_load_written_register_named", "seeded_index_loop_head", "branch_to_line_zero", "seeded_line_zero",
+    "seeded_cache_violates_scratch_ok", "seeded_qfree_register_live", "seeded_load_written_register_named", "seeded_index_loop_head", "branch_to_line_zero", "seeded_line_zero", "seeded_end_label_behind_return_block",
     "transpile_pure", "transpile_retry_pure", "second_pass_identity_witness",
     "f10_counterexample_asserts", "f10_counterexample_stale", "f26_fixed_witness"]]
 TRANSLATORS = ["nv_expand", "nv_decomp"]
@@ -318,6 +318,16 @@ def run(ctx):
         oracle("corpus-nonset-written-live", w_addlive, 4, debug=dbg)
         syntactic("corpus", w_ldlive, dbg, False)
         syntactic("corpus", w_addlive, dbg, False)
+    # seeded change C08_20: a TAKEN (r2 = 0) / not taken (r2 = 1) branch to the label behind a trailing
+    # return block; what ret_reg publishes to the host is part of the compared state
+    for r2 in (0, 1):
+        w_ret = [H.ins(SET, Rr(2), H.imm(r2)), H.ins(SET, Rr(1), H.imm(5)), H.ins(SET, Qr(0), H.imm(0)),
+                 H.ins(SET, Qr(1), H.imm(1)), H.ins("vanilla.GateHInstruction", Qr(0)), H.ins(CN, Qr(0), Qr(1)),
+                 H.ins("core.BezInstruction", Rr(2), H.imm(10)), H.ins(SET, Rr(1), H.imm(7)),
+                 H.ins("vanilla.GateXInstruction", Qr(1)), H.ins("core.RetRegInstruction", Rr(1))]
+        for dbg in (False, True):
+            oracle("corpus-end-label-behind-return-block", w_ret, 2, debug=dbg)
+            syntactic("corpus", w_ret, dbg, False)
     oracle("corpus-F10-assert", w_assert, 3, _G([(5, 0, 0)]))
     oracle("corpus-F10-stale", w_stale, 3, _G([(6, 0, 0)]))
     # F26 (fixed): branch across a carbon-carbon gate with debug markers
@@ -339,6 +349,7 @@ def run(ctx):
         nq = rng.choice([1, 2, 2, 3, 3, 4, 5])
         loads = rng.random() < 0.25
         g = H.ProgGen(rng, nq, loads=loads, sdk_regs=rng.random() < 0.4)
+        g.ret_block = rng.random() < 0.45   # ends in ret_reg / ret_arr like every SDK subroutine
         js = g.program(rng.randrange(1, 7))
         for f in g.features:
             res.count("feature:" + f)
